@@ -80,3 +80,37 @@ def cumsum (a : List (Expr N)) : List (Expr N) := cumsumFrom (Expr.const (Num.of
 def pad1 (a : List (Expr N)) (lo hi : Expr N) : List (Expr N) := lo :: (a ++ [hi])
 
 end Ad.Vec
+
+/-! ### square matrices of expressions (`TriangularAffine`) -/
+namespace Ad.Mat
+variable {N : Type} [Num N]
+
+/-- entry `(i, j)` (the constant 0 outside the shape) -/
+def entry (m : List (List (Expr N))) (i j : Nat) : Expr N := (m.getD i []).getD j (Expr.const (Num.ofInt 0))
+def ofFn (n : Nat) (f : Nat → Nat → Expr N) : List (List (Expr N)) := (List.range n).map (fun i => (List.range n).map (fun j => f i j))
+/-- the `n × n` matrix stored row-major in vector parameter `vec` -/
+def ofVec (vec n : Nat) : List (List (Expr N)) := ofFn n (fun i j => Expr.get vec (fun _ => Int.ofNat (i * n + j)))
+
+/-- `jnp.diag(d)` of a 1-d array: the diagonal matrix (zeros are constants) -/
+def diagM (d : List (Expr N)) : List (List (Expr N)) := ofFn d.length (fun i j => if i = j then Vec.getAt d i else Expr.const (Num.ofInt 0))
+/-- `jnp.diag(m)` of a square matrix -/
+def diag (m : List (List (Expr N))) : List (Expr N) := (List.range m.length).map (fun i => entry m i i)
+/-- `jnp.tril(m, k)`: `where(j ≤ i + k, m, 0)` with a static mask -/
+def tril (m : List (List (Expr N))) (k : Int) : List (List (Expr N)) :=
+  ofFn m.length (fun i j => if (Int.ofNat j) ≤ (Int.ofNat i) + k then entry m i j else Expr.const (Num.ofInt 0))
+def add (a b : List (List (Expr N))) : List (List (Expr N)) := ofFn a.length (fun i j => Expr.add (entry a i j) (entry b i j))
+/-- `m @ x` -/
+def mulVec (m : List (List (Expr N))) (x : List (Expr N)) : List (Expr N) := m.map (fun row => Vec.dot row x)
+
+def solveLowerGo (m : List (List (Expr N))) (b : List (Expr N)) : Nat → List (Expr N) → List (Expr N)
+  | 0, acc => acc
+  | k + 1, acc =>
+      let i := acc.length
+      solveLowerGo m b k (acc ++ [Expr.div (Expr.sub (Vec.getAt b i) (Vec.dot ((List.range i).map (fun j => entry m i j)) acc)) (entry m i i)])
+/-- `jax.scipy.linalg.solve_triangular(m, b, lower=True)` by its definition, forward substitution:
+`x_i = (b_i - Σ_{j<i} m_ij x_j) / m_ii` (entries above the diagonal are not read).  JAX's transpose rule is another triangular
+solve with the same diagonal; the two agree in exact arithmetic and the correspondence checks them numerically. -/
+def solveLower (m : List (List (Expr N))) (b : List (Expr N)) : List (Expr N) := solveLowerGo m b m.length []
+
+end Ad.Mat
+
